@@ -554,11 +554,73 @@ def _lex_eq(a, b):
     return all(_lex_eq(x, y) for x, y in zip(a["k"], b["k"]))
 
 
+HAND_XSD = ('<xs:schema xmlns:xs="http://www.w3.org/2001/XMLSchema" xmlns:t="urn:fam" targetNamespace="urn:fam" elementFormDefault="qualified">'
+            '<xs:element name="item" type="xs:string"/>'
+            # the same global element referenced with different occurrence bounds, in both declaration orders
+            '%s'
+            '<xs:complexType name="Open"><xs:sequence><xs:element name="a" type="xs:string"/><xs:element name="b" type="xs:int" minOccurs="0"/></xs:sequence>'
+            '<xs:attribute name="id" type="xs:string"/><xs:anyAttribute processContents="lax"/></xs:complexType>'
+            '<xs:element name="open" type="t:Open"/></xs:schema>')
+LAX = '<xs:element name="lax"><xs:complexType><xs:sequence><xs:element ref="t:item" minOccurs="0" maxOccurs="unbounded"/></xs:sequence></xs:complexType></xs:element>'
+TIGHT = ('<xs:element name="tight"><xs:complexType><xs:sequence><xs:element name="n" type="xs:int"/><xs:element ref="t:item"/></xs:sequence></xs:complexType></xs:element>'
+         '<xs:element name="pair"><xs:complexType><xs:sequence><xs:element ref="t:item" minOccurs="2" maxOccurs="2"/></xs:sequence></xs:complexType></xs:element>')
+
+
+def hand_cases(ctx, res):
+    """hand-written signatures outside the generator: one global element referenced (ref=) from several places with different
+    occurrence bounds, in both declaration orders; a type with xsd:anyAttribute called positionally"""
+    import zeep.xsd
+    for order, decls in (("lax-first", LAX + TIGHT), ("tight-first", TIGHT + LAX)):
+        zs = zeep.xsd.Schema(etree.fromstring((HAND_XSD % decls).encode()))
+        el = lambda n: zs.get_element("{urn:fam}" + n)     # noqa
+        calls = [
+            # (element, args, kwargs, expected: 'ok' / 'refuse', what)
+            ("lax", (), {}, "ok", "no item for {0,unbounded}"),
+            ("lax", (), {"item": ["a", "b", "c"]}, "ok", "three items for {0,unbounded}"),
+            ("tight", (), {"n": 1, "item": "x"}, "ok", "one item for {1,1}"),
+            ("tight", (), {"n": 1}, "refuse", "required ref element missing"),
+            ("tight", (), {"n": 1, "item": ["x", "y"]}, "refuse", "a list for a {1,1} ref element"),
+            ("pair", (), {"item": ["x", "y"]}, "ok", "two items for {2,2}"),
+            ("pair", (), {"item": ["x"]}, "refuse", "one item for {2,2}"),
+            ("pair", (), {"item": ["x", "y", "z"]}, "refuse", "three items for {2,2}"),
+            ("pair", (), {}, "refuse", "no item for {2,2}"),
+            ("open", ("A", 1, "ID"), {}, "ok", "positional fields and attribute of a type with anyAttribute"),
+            ("open", ("A", 1, "ID", {"extra": "1"}), {}, "ok", "a dict for the anyAttribute slot"),
+            ("open", ("A", 1, "ID", "SURPLUS"), {}, "refuse", "a surplus non-dict positional after the declared ones"),
+            ("open", ("A", 1, "ID", {"extra": "1"}, "SURPLUS"), {}, "refuse", "a surplus positional after the anyAttribute slot"),
+            ("open", ("A",), {"zz_unknown": 1}, "refuse", "unknown keyword on a type with anyAttribute"),
+        ]
+        for name, args, kw, expect, what in calls:
+            res.case(key=("hand", order, name, repr(args), repr(kw)), nontrivial=True)
+            res.count("hand-written:" + ("ref-bounds" if name != "open" else "anyAttribute"))
+            case = dict(kind="hand", order=order, element=name, args=repr(args), kwargs=repr(kw), what=what)
+            try:
+                e = el(name)
+                parent = etree.Element("p")
+                e.render(parent, e(*args, **kw))
+                out = "ok"
+                emitted = etree.tostring(parent[0]).decode()
+            except Exception as ex:  # noqa
+                out, emitted = type(ex).__name__, str(ex)[:100]
+            if expect == "ok" and out != "ok":
+                res.failures.append(dict(what="a conforming call is refused (%s): %s %s" % (what, out, emitted), case=case))
+            elif expect == "refuse" and out == "ok":
+                res.failures.append(dict(what="corrupted call accepted (%s): XML built without an error: %s" % (what, emitted[:300]), case=case))
+            elif expect == "refuse":
+                res.count("hand-written:refused-with:" + out)        # any exception before XML exists is a refusal
+            elif expect == "ok" and name in ("lax", "tight", "pair"):
+                n_items = emitted.count("item>") // 2 + emitted.count("item/>")
+                want = len(kw.get("item", [])) if isinstance(kw.get("item"), list) else (1 if "item" in kw else 0)
+                if n_items != want:
+                    res.failures.append(dict(what="%d item elements emitted, %d supplied (%s)" % (n_items, want, what), case=case))
+
+
 def run(ctx):
     import logging
     logging.getLogger("zeep").setLevel(logging.CRITICAL)
     res = Result()
     pending = []
+    hand_cases(ctx, res)
     n = ctx.n(120, 2000)
     for i in range(n):
         seed = ctx.seed * 100000 + i
@@ -583,6 +645,12 @@ def search(ctx):
 
 
 def replay(ctx, payload):
+    if payload.get("case", payload).get("kind") == "hand":
+        r = Result()
+        hand_cases(ctx, r)
+        c = payload.get("case", payload)
+        bad = [f for f in r.failures if f["case"]["element"] == c["element"] and f["case"]["args"] == c["args"] and f["case"]["kwargs"] == c["kwargs"]]
+        return (not bad), "hand-written case rerun: %s" % (bad[0]["what"] if bad else "holds")
     """re-run the recorded schema and value; the verdict is whether that (schema, value) still has a failure of the recorded kind"""
     c = payload.get("case", payload)
     case = bcase(c["seed"], c["profile"].endswith("choice"))
